@@ -321,6 +321,8 @@ def fixed_cases(tier):
         out.append(gen_cycle(r))
     for t in ('bkl', 'bkl-o', 'bkld', 'bkli', 'bklr'):
         out.append({'kind': 'fault', 'tool': t})
+    for odd in FSODD:
+        out.append({'kind': 'fsodd', 'odd': odd})
     import base64
     for y in (b'a: &anchor\n  <<: *anchor\n', b'a: &x\n  - *x\n', b'a: &x\n  b: &y\n    c: *x\n', b'&r [*r]\n', b'a: &x {k: *x}\n', b'x: &a\n  <<: [*a]\n'):
         out.append({'kind': 'bytes', 'ext': 'yaml', 'b64': base64.b64encode(y).decode(), 'fmt': 'json', 'tools': True})
@@ -462,6 +464,8 @@ def check_case(ctx, case):
         return check_bytes(ctx, case, res)
     if k == 'pgraph':
         return check_pgraph(ctx, case, res)
+    if k == 'fsodd':
+        return check_fsodd(ctx, case, res)
     return check_fault(ctx, case, res)
 
 
@@ -601,6 +605,74 @@ def check_pgraph(ctx, case, res):
         resp = ctx.call([{'op': 'merge_layers', 'path': os.path.join(d, 'f0.yaml')}, {'op': 'output', 'format': 'json'}], res, budget=3000)
         judge_lib(res, resp, 'library on $parent graph', cyc, {'n': n, 'edges': edges})
     finally:
+        ctx.cleanup_case(d)
+    return res
+
+
+FSODD = ['symlink-to-dotless', 'symlink-to-dotless-child', 'input-no-extension', 'input-is-directory', 'empty-file', 'dangling-symlink', 'symlink-loop', 'parent-is-directory',
+         'only-dots-name', 'unreadable', 'whitespace-only', 'parent-dotless', 'bom']
+
+
+def check_fsodd(ctx, case, res):
+    """Odd but possible directory contents: the tools must report an error (or succeed), never crash."""
+    odd = case['odd']
+    d = ctx.casedir()
+    try:
+        def w(name, text):
+            with open(os.path.join(d, name), 'w') as f:
+                f.write(text)
+        inp = 'app.yaml'
+        if odd == 'symlink-to-dotless':
+            w('settings', 'a: 1\n')
+            os.symlink('settings', os.path.join(d, 'app.yaml'))
+        elif odd == 'symlink-to-dotless-child':
+            w('settings', 'a: 1\n')
+            os.symlink('settings', os.path.join(d, 'app.yaml'))
+            w('app.prod.yaml', 'b: 2\n')
+            inp = 'app.prod.yaml'
+        elif odd == 'input-no-extension':
+            w('app', 'a: 1\n')
+            inp = 'app'
+        elif odd == 'input-is-directory':
+            os.makedirs(os.path.join(d, 'app.yaml'))
+        elif odd == 'empty-file':
+            w('app.yaml', '')
+        elif odd == 'whitespace-only':
+            w('app.yaml', ' \n\n')
+        elif odd == 'dangling-symlink':
+            os.symlink('nowhere.yaml', os.path.join(d, 'app.yaml'))
+        elif odd == 'symlink-loop':
+            os.symlink('b.yaml', os.path.join(d, 'app.yaml'))
+            os.symlink('app.yaml', os.path.join(d, 'b.yaml'))
+        elif odd == 'parent-is-directory':
+            os.makedirs(os.path.join(d, 'app.json'))
+            w('app.prod.yaml', 'b: 2\n')
+            inp = 'app.prod.yaml'
+        elif odd == 'only-dots-name':
+            w('...yaml', 'a: 1\n')
+            inp = '...yaml'
+        elif odd == 'unreadable':
+            w('app.yaml', 'a: 1\n')
+            os.chmod(os.path.join(d, 'app.yaml'), 0)
+        elif odd == 'parent-dotless':
+            w('app.yaml', '$parent: settings\na: 1\n')
+            w('settings', 'b: 1\n')
+        elif odd == 'bom':
+            w('app.yaml', '\ufeffa: 1\n')
+        res.nontrivial = True
+        res.labels.add('fsodd:' + odd)
+        for tool, argv in (('bkl', ['-f', 'json', inp]), ('bklr', ['-f', 'json', inp]), ('bkld', ['-f', 'json', inp, inp]), ('bkli', ['-f', 'json', inp, inp])):
+            r = cli([ctx.bin(tool)] + argv, cwd=d)
+            res.execs += 1
+            if not judge_cli(res, r, '%s on %s' % (tool, odd), 'json', detail={'odd': odd}):
+                return res
+        resp = ctx.call([{'op': 'merge_layers', 'path': os.path.join(d, inp)}, {'op': 'output', 'format': 'json'}], res)
+        judge_lib(res, resp, 'library on %s' % odd, False, {'odd': odd})
+    finally:
+        try:
+            os.chmod(os.path.join(d, 'app.yaml'), 0o644)
+        except OSError:
+            pass
         ctx.cleanup_case(d)
     return res
 
